@@ -6,7 +6,7 @@ from . import pat
 
 
 def id_adt(ctx):
-    """The subgraph-id type: the local ADT (other than the table) that the scan takes by reference."""
+    """The subgraph-id type: the local ADT (other than the table) that the scan takes (by reference or by value)."""
     from .rules.c06 import find_scan
     f = ctx.facts
     sector, scan_site = find_scan(ctx, ctx.roles)
@@ -14,10 +14,9 @@ def id_adt(ctx):
     cands = []
     for l in scan.locals[1:scan.arg_count + 1]:
         t = f.ty(l["ty"]) or {}
-        if t.get("k") == "ref":
-            u = f.ty(t["t"]) or {}
-            if u.get("k") == "adt" and u["path"] in f.adts and not u["path"].endswith("TropicalSubgraphTable"):
-                cands.append(u["path"])
+        u = (f.ty(t["t"]) or {}) if t.get("k") == "ref" else t      # by reference, or (the id is Copy) by value
+        if u.get("k") == "adt" and u["path"] in f.adts and not u["path"].endswith("TropicalSubgraphTable"):
+            cands.append(u["path"])
     if len(cands) != 1:
         raise RoleLost("subgraph-id type: ADT parameter of the scan (found %d)" % len(cands))
     return cands[0]
